@@ -125,7 +125,9 @@ while len(se_meta) < want_se and tries < 20 * want_se:
     # sample is designated by its index k or, equivalently, by k - numpoints (counted from the end of the wall)
     crowd_ = 41 if (tries % 7 == 3 and not intsrc_ and geom["nlegs"] >= 2) else None
     from_end_ = crowd_ is not None and tries % 14 == 3
-    path = snellexact.arim_path(geom, arim, int_source=intsrc_, crowd=crowd_, from_end=from_end_)
+    bframes_ = tries % 3 == 2
+    path = snellexact.arim_path(geom, arim, int_source=intsrc_, crowd=crowd_, from_end=from_end_, broadcast_frames=bframes_)
+    chk.count(snell_exact_frames_storage="stride-0 broadcast view" if bframes_ else "one matrix per point")
     if crowd_ is not None:
         chk.count(snell_exact_finely_sampled_wall="sample counted from the end" if from_end_ else "sample counted from the start")
     if normal_:
